@@ -25,6 +25,8 @@ mod dom_value;
 mod dom_parse;
 mod dom_cdc;
 mod dom_assign;
+mod dom_wide;
+mod dom_engexpr;
 
 fn main() {
     let args: Vec<String> = std::env::args().skip(1).collect();
@@ -35,6 +37,8 @@ fn main() {
     let opts = util::Opts::parse(&args[1..]);
     let rc = match args[0].as_str() {
         "store" => dom_store::main(&opts),
+        "wide" => dom_wide::main(&opts),
+        "engexpr" => dom_engexpr::main(&opts),
         "combloop" => dom_combloop::main(&opts),
         "pretty" => dom_pretty::main(&opts),
         "fragment" => dom_fragment::main(&opts),
